@@ -34,7 +34,7 @@ DECIDING = ['bp.app.bpsec:Bpsec._verify_bib', 'bp.app.bpsec:Bpsec._verify_bcb', 
 REQUIRED_OBS = ['bundles', 'expect_fail', 'expect_deliver', 'reports_with_security_reason', 'accepted_blocks_removed', 'bcb_plaintext_released']
 
 SEC_REASONS = {12, 13, 14, 15, 16}
-CLASSES = ['valid', 'none', 'wrong-tag', 'unknown-kid', 'altered-target', 'altered-primary', 'unknown-context', 'missing-target',
+CLASSES = ['valid', 'valid-scope', 'dup-params-apart', 'none', 'wrong-tag', 'unknown-kid', 'altered-target', 'altered-primary', 'unknown-context', 'missing-target',
            'dup-params', 'dup-results', 'count-mismatch', 'two-results', 'zero-results', 'garbage-cose', 'wrong-msg-type', 'truncated-cose',
            'not-an-asb', 'asb-bad-source', 'scope-missing-block', 'two-blocks-first-bad', 'two-blocks-second-bad',
            'two-blocks-both-good', 'multi-target-first-bad', 'multi-target-last-bad', 'multi-target-good', 'attached-original-altered-target']
@@ -84,6 +84,12 @@ def build(cls, variant, rng, report):
     kind = variant  # 'bib' | 'bcb'
     if cls == 'valid':
         add_block(kind, pay, 2)
+    elif cls == 'valid-scope':
+        # AAD scopes that bind metadata AND data of the target / of another block (flags 3)
+        add_block(kind, pay, 2, scope=rng.choice([{0: 1, -1: 3}, {0: 1, -1: 1, 9: 3}, {-1: 3, 9: 3}, {0: 1, -1: 1, 9: 2}]))
+    elif cls == 'dup-params-apart':
+        # the same parameter id twice with another parameter in between
+        add_block(kind, pay, 2, mutate=lambda asb, sec, tgt: asb.update(params=asb['params'] + [(4, cw.enc({4: b'mk' if kind == 'bib' else b'ek'})), (5, {0: 1, -1: 1})]))
     elif cls == 'wrong-tag':
         def mut(asb, sec, tgt):
             if kind == 'bib':
